@@ -135,6 +135,9 @@ type ttCallSpec struct {
 	anyx    bool   // the handler puts int64/uint64 (not float64) into the `any` positions of its output
 	content string // n N 0 1 2
 	herr    int
+	// members of the *CallToolResult the handler sets ITSELF, next to its typed output (hise=1, hsc=x<json>)
+	hise bool
+	hsc  string
 }
 type ttObs struct {
 	inv  int
@@ -191,6 +194,15 @@ func ttHandle[In, Out any](ctl *ttCtl, name string, in In) (res *CallToolResult,
 		res = &CallToolResult{Content: []Content{&TextContent{Text: "c0"}}}
 	case "2":
 		res = &CallToolResult{Content: []Content{&TextContent{Text: "c0"}, &TextContent{Text: "c1"}}}
+	}
+	if c.hise || c.hsc != "" {
+		if res == nil {
+			res = &CallToolResult{}
+		}
+		res.IsError = c.hise
+		if c.hsc != "" {
+			res.StructuredContent = json.RawMessage(c.hsc)
+		}
 	}
 	rt := reflect.TypeFor[Out]()
 	switch c.out {
@@ -2275,6 +2287,13 @@ func (w *ttWorld) callPrep1(toks []string, run *ttCallRun) (op string, obs strin
 	}
 	spec := &ttCallSpec{content: ttKV(toks, "content"), anyx: ttKV(toks, "anyx") == "1"}
 	spec.herr, _ = strconv.Atoi(ttKV(toks, "herr"))
+	spec.hise = ttKV(toks, "hise") == "1"
+	if hb, ok := ttUnhex(ttKV(toks, "hsc")); ok {
+		spec.hsc = string(hb)
+	}
+	if spec.hise || spec.hsc != "" {
+		tags = append(tags, "hset", fmt.Sprintf("hset:ise=%v,sc=%v", spec.hise, spec.hsc != ""))
+	}
 	o := ttKV(toks, "out")
 	if o == "nilptr" || o == "nilany" {
 		spec.out = o
@@ -2444,8 +2463,19 @@ func (w *ttWorld) callFinish1(r *ttCallRun) (obs string, tags []string) {
 		seen = ttCanonBytes(ob.seen)
 	}
 	olib := "-"
-	if ob.inv > 0 && spec.herr == 0 && ob.hout != nil && ti.hasOut {
-		hv, perr := ttParse(ob.hout)
+	// the output that is validated: the typed output; for a nil `any` the structured content the handler set
+	// itself, else (no error result declared) JSON null
+	effOut := ob.hout
+	if spec.out == "nilany" || (ti.outTy.Kind() == reflect.Interface && string(ob.hout) == "null") {
+		switch {
+		case spec.hsc != "":
+			effOut = []byte(spec.hsc)
+		case spec.hise:
+			effOut = nil
+		}
+	}
+	if ob.inv > 0 && spec.herr == 0 && effOut != nil && ti.hasOut {
+		hv, perr := ttParse(effOut)
 		if perr == nil {
 			if hv == nil && ti.outObj {
 				hv = map[string]any{}
@@ -2496,7 +2526,34 @@ func (w *ttWorld) callFinish1(r *ttCallRun) (obs string, tags []string) {
 			scCanon = ttCanonBytes(structured)
 			sc = scCanon
 		}
-		if wire.IsError {
+		// the content blocks one by one: a handler's own text (t<hex>), the serialised structured content (=sc)
+		blocks := func() string {
+			var bl []string
+			for _, c := range wire.Content {
+				if c.Type != "text" {
+					bl = append(bl, "k"+hxs(c.Type))
+					continue
+				}
+				if hasSC {
+					if tv, e := ttParse([]byte(c.Text)); e == nil && ttCanon(tv) == scCanon {
+						bl = append(bl, "=sc")
+						continue
+					}
+				}
+				bl = append(bl, "t"+hxs(c.Text))
+			}
+			if len(bl) == 0 {
+				return "-"
+			}
+			return strings.Join(bl, ";")
+		}
+		if wire.IsError && spec.hise && ob.inv > 0 && spec.herr == 0 {
+			// an error result the HANDLER declared (IsError set on the result it returned): its content is the
+			// handler's own, observed block by block
+			kind = "toolerr"
+			tags = append(tags, "res:toolerr-hset")
+			content = blocks()
+		} else if wire.IsError {
 			kind = "toolerr"
 			ek := "other"
 			if len(wire.Content) == 1 {
@@ -2521,23 +2578,7 @@ func (w *ttWorld) callFinish1(r *ttCallRun) (obs string, tags []string) {
 		} else {
 			kind = "ok"
 			tags = append(tags, "res:ok")
-			var bl []string
-			for _, c := range wire.Content {
-				if c.Type != "text" {
-					bl = append(bl, "k"+hxs(c.Type))
-					continue
-				}
-				if hasSC {
-					if tv, e := ttParse([]byte(c.Text)); e == nil && ttCanon(tv) == scCanon {
-						bl = append(bl, "=sc")
-						continue
-					}
-				}
-				bl = append(bl, "t"+hxs(c.Text))
-			}
-			if len(bl) > 0 {
-				content = strings.Join(bl, ";")
-			}
+			content = blocks()
 			if sc != "-" {
 				tags = append(tags, "structured", "sc:"+ttJSONKind("x"+hx(structured)), era+"-"+peerKind+"-sc:"+ttJSONKind("x"+hx(structured)))
 			}
@@ -2658,6 +2699,7 @@ type ttGenPtr struct {
 }
 
 type ttCaseGen struct {
+	hset  bool // the next call's handler sets a StructuredContent of its own
 	g     *ttGen
 	lines []string
 	ptrs  []ttGenPtr
@@ -2839,7 +2881,25 @@ func (c *ttCaseGen) addCallWith(t *ttGenTool, args, atag, out string) {
 	if g.coin(0.5) {
 		anyx = 1
 	}
-	c.lines = append(c.lines, fmt.Sprintf("call tool=%s args=%s out=%s anyx=%d content=%s herr=%d gen=%s", t.name, args, out, anyx, content, herr, strings.TrimPrefix(atag, "gen:")))
+	line := fmt.Sprintf("call tool=%s args=%s out=%s anyx=%d content=%s herr=%d gen=%s", t.name, args, out, anyx, content, herr, strings.TrimPrefix(atag, "gen:"))
+	// 8 % (and always when asked for): the handler ALSO sets members of the result it returns itself: IsError,
+	// and/or a StructuredContent of its own — an instance generated against the tool's output schema (valid
+	// or one-mutation-invalid) or an arbitrary value
+	if c.hset || g.coin(0.08) {
+		hise, hsc := 0, "-"
+		if !c.hset && g.coin(0.5) {
+			hise = 1
+		}
+		if c.hset || hise == 0 || g.coin(0.5) {
+			tx, _ := g.instance(t.oschV)
+			if g.coin(0.15) {
+				tx = ttEnc(g.anyValue(0))
+			}
+			hsc = "x" + hxs(tx)
+		}
+		line += fmt.Sprintf(" hise=%d hsc=%s", hise, hsc)
+	}
+	c.lines = append(c.lines, line)
 }
 
 // addOverlap emits a group of overlapping calls (ovl=1..n), one per given tool: generated like any other
@@ -2909,6 +2969,11 @@ func ttMatrixCase(r *rand.Rand, ver, peer string) []string {
 			c.addCallWith(t, "", "", "nilptr")
 		case "any":
 			c.addCallWith(t, "", "", "nilany")
+			// a nil output, and the handler sets the structured content itself (twice)
+			c.hset = true
+			c.addCallWith(t, "", "", "nilany")
+			c.addCallWith(t, "", "", "nilany")
+			c.hset = false
 		case "slice", "map":
 			c.addCallWith(t, "", "", "x"+hxs("null")) // a nil slice / map: JSON null
 		}
